@@ -599,6 +599,12 @@ def _gen_entropy_cases(a, b, rng, tag, beta=Fr(1)):
     yield Case("gen.segindex", ["_mutual_info_score", list(a), list(b), None],
                lambda ya=ya, yb=yb: S._mutual_info_score(ya, yb),
                tag=tag + " mi", info=_seq_info("_mutual_info_score", a, b), nontrivial=nontriv)
+    if n != len(b) or (len(set(a)) == 1) == (len(set(b)) == 1):
+        # (a zero-entropy side against a split one floors the denominator at 1e-10 and divides rounding noise by it:
+        #  ill-conditioned, see ASSUMPTIONS; compared through the public function's suites only)
+        yield Case("gen.segindex", ["_normalized_mutual_info_score", list(a), list(b)],
+                   lambda ya=ya, yb=yb: S._normalized_mutual_info_score(ya, yb),
+                   tag=tag + " nmi", info=_seq_info("_normalized_mutual_info_score", a, b), nontrivial=nontriv)
     if n == len(b) and n > 0:
         c = S._contingency_matrix(ya, yb)
         yield Case("gen.segindex", ["_mutual_info_score", list(a), list(b), c.tolist()],
@@ -1014,6 +1020,7 @@ ORACLES = {site: _oracle_gen(site) for site in CHECKERS}
 _GEN_SITES = {"pairwise": ["segment.pairwise"], "rand_index": ["segment.rand_index"], "ari": ["segment.ari"],
               "_adjusted_rand_index": ["segment.ari"], "nce": ["segment.nce"], "vmeasure": ["segment.vmeasure"],
               "_entropy": ["segment.mutual_information"], "_mutual_info_score": ["segment.mutual_information"],
+              "_normalized_mutual_info_score": ["segment.mutual_information"],
               "_contingency_matrix": ["segment.ari", "segment.mutual_information", "segment.nce"]}
 
 
